@@ -184,11 +184,23 @@ def goroutine_part(res, rnd, a, work):
             lines += ["\tfor {", "\t}", "}", ""]
             want[ids[w]] = vals
         a_, b_ = rnd.randrange(1, 200), rnd.randrange(1, 200)
-        lines += ["func main() {", "\tvar reg_a %s" % ty, "\tvar outa bondgo.Output", "\tvar outb bondgo.Output",
-                  "\touta = bondgo.Make(bondgo.Output, %d)" % ids[nw], "\toutb = bondgo.Make(bondgo.Output, %d)" % ids[nw + 1]]
+        # half of the programs also have a goroutine that reads an output of main (same id: an internal bond) next to an external input
+        linked = k % 2 == 1
+        ext_val = rnd.randrange(1, 50)
+        lid, eid, oid = 20, 21, 22
+        if linked:
+            lines += ["func adder() {", "\tvar in_e bondgo.Input", "\tvar in_l bondgo.Input", "\tvar out_s bondgo.Output",
+                      "\tin_e = bondgo.Make(bondgo.Input, %d)" % eid, "\tin_l = bondgo.Make(bondgo.Input, %d)" % lid,
+                      "\tout_s = bondgo.Make(bondgo.Output, %d)" % oid, "\tfor {", "\t\tbondgo.IOWrite(out_s, bondgo.IORead(in_l)+bondgo.IORead(in_e))", "\t}", "}", ""]
+        lines += ["func main() {", "\tvar reg_a %s" % ty, "\tvar outa bondgo.Output", "\tvar outb bondgo.Output"] + (["\tvar outl bondgo.Output"] if linked else [])
+        lines += ["\touta = bondgo.Make(bondgo.Output, %d)" % ids[nw], "\toutb = bondgo.Make(bondgo.Output, %d)" % ids[nw + 1]]
+        if linked:
+            lines += ["\toutl = bondgo.Make(bondgo.Output, %d)" % lid, "\tgo adder()"]
         lines += ["\tgo worker%d()" % w for w in range(nw)]
-        lines += ["\treg_a = %d" % a_, "\tbondgo.IOWrite(outa, reg_a)", "\treg_a = %d" % b_, "\tbondgo.IOWrite(outb, reg_a)", "\tbondgo.IOWrite(outa, reg_a)",
-                  "\tfor {", "\t}", "}", ""]
+        lines += ["\treg_a = %d" % a_, "\tbondgo.IOWrite(outa, reg_a)", "\treg_a = %d" % b_, "\tbondgo.IOWrite(outb, reg_a)", "\tbondgo.IOWrite(outa, reg_a)"]
+        if linked:
+            lines += ["\tbondgo.IOWrite(outl, reg_a)"]
+        lines += ["\tfor {", "\t}", "}", ""]
         want[ids[nw]] = [a_, b_]
         want[ids[nw + 1]] = [b_]
         src = "\n".join(lines)
@@ -214,11 +226,20 @@ def goroutine_part(res, rnd, a, work):
         if len(set(texts)) > 1:
             viol.append(("compiling a program with %d goroutines 8 times gives %d different machines" % (nw, len(set(texts))), meta))
             continue
-        r = simlib.run_sims([{"bm": {"json": texts[0]}, "env": [], "ticks": 120, "dump": "ext"}])[0]
+        r = simlib.run_sims([{"bm": {"json": texts[0]}, "env": [{"in": [[ext_val, 1]], "outrecv": []}] * 160 if linked else [], "ticks": 160, "dump": "ext"}])[0]
         if r.get("err"):
             viol.append(("the machine the compiler requests for a program with goroutines cannot be simulated: %s" % r["err"], meta))
             continue
         done += 1
+        if linked:
+            # the adder's output settles on (value main wrote to the linked output + the external input); it is compared by its
+            # settled value, the other outputs by their whole sequences
+            final = sorted(t for t in r["ticks"][-1]["out"])
+            expect = sorted([v[-1] for v in want.values()] + [(b_ + ext_val) % (1 << rsize)])
+            if final != expect:
+                viol.append(("the machine's outputs settle on %s; the source (a goroutine adds external input %d to the value %d main writes to the output "
+                             "it reads) says %s" % (final, ext_val, b_, expect), meta))
+            continue
         seqs = []
         for o in range(len(r["ticks"][-1]["out"])):
             seq = []
